@@ -15,6 +15,7 @@ DOC = {
     "GatewayRowsJustified/GatewayExactLinksPresent/WildcardRowsLive": "gateway-services rows are exactly those the gateway config entries justify: exact links always present, "
                                                                        "wildcard rows only for names that exist",
     "TopologyRefsLive": "every mesh-topology reference names a registered instance",
+    "TopologyRefsComplete/TopologyRefsJustified": "the mesh-topology rows of sidecar proxies are exact: every declared upstream of a local proxy instance is referenced by the row (upstream, its destination), and a reference to an existing instance is to a proxy of that destination declaring that upstream",
     "UsageAgrees": "usage counters (nodes, service instances, service names, kv entries) equal the recount",
     "VipInjective/VipPoolDisjoint": "no two services share a virtual IP; an assigned IP is not in the free pool",
     "AdvertisedVipStaleGatewayLink": "the same for a per-service address of a terminating gateway whose config entry no longer links that service",
@@ -77,8 +78,8 @@ def run(tier):
                "predicate_doc": DOC, "rejected_by_predicate": hits, "known_findings_matched": verdict.known_hit, "exhaustive": False,
                "model_check": "StoreMC profile sess depth %d: NoOrphans + session/lock cascades over all interleavings of base-table commands" % depth}
         vf.write_evidence(PID, tier, "model_checking", cov,
-                          ["projection copies fields only (harness/internal/storeh/catalog.go)", "wildcard completeness of gateway-services and the exact "
-                           "content of mesh-topology are not recomputed (only justified-ness / liveness of rows)"],
+                          ["projection copies fields only (harness/internal/storeh/catalog.go)", "wildcard completeness of gateway-services is not recomputed (only justified-ness / liveness of rows); mesh-topology rows are recomputed "
+                           "exactly for sidecar proxies, rows of ingress gateways only for liveness"],
                           time.time() - t0, n_new)
         return 1 if n_new else 0
     finally:
